@@ -72,7 +72,7 @@ func genHeapCase(pos bool) func(t *rapid.T) HeapCase {
 			}
 			c.Spare = rapid.IntRange(0, 7).Draw(t, "spare")
 		}
-		c.Ops = rapid.SliceOfN(genHOp(kinds), 0, 60).Draw(t, "ops")
+		c.Ops = rapid.SliceOfN(genHOp(kinds), 0, vk.MaxOps(t, 60, 400)).Draw(t, "ops")
 		if c.Mode == "G" && rapid.IntRange(0, 7).Draw(t, "big") == 0 {
 			// big mode: hundreds of elements, bulk growth and shrinkage
 			c.UseData = true
